@@ -294,6 +294,8 @@ def _mk(w, c):
         return r
     if route == 'obj':
         return cls(w.cls('Bits')(bin=s), **kw)
+    if route == 'bits_kw':
+        return cls(bits=w.objs[c['xs'][0]['id']], **kw)
     if route == 'from_obj':
         # construct from the (tracked) object given as the operand
         return cls(w.objs[c['xs'][0]['id']], **kw)
@@ -1264,3 +1266,107 @@ def _mkwin(w, c):
         with open(fn, 'rb') as f:
             return cls(f, **kw)
     raise ValueError(kind)
+
+
+# ---------------------------------------------------------------------------
+# derivation routes and external buffers (C04)
+
+@op('setbits')
+def _setbits(w, c):
+    """t.bits = x"""
+    T(w, c).bits = w.operand(c['xs'][0])
+
+
+@op('getbits')
+def _getbits(w, c):
+    return T(w, c).bits
+
+
+@op('mkext')
+def _mkext(w, c):
+    """create a user-held buffer rid from bits: sa[0] in bytearray|bitarray|array|memoryview"""
+    import array
+    import bitarray
+    kind = c['sa'][0]
+    bits = c['xs'][0]['v']
+    if kind == 'bitarray':
+        buf = bitarray.bitarray(enc.str_of_bits(bits))
+    elif kind == 'bytearray':
+        buf = w.make_lit('bytearray', bits)
+    elif kind == 'memoryview':
+        w.ext[c['rid'] + '_base'] = w.make_lit('bytearray', bits)
+        buf = memoryview(w.ext[c['rid'] + '_base'])
+    elif kind == 'array':
+        buf = array.array('B', w.make_lit('bytes', bits))
+    else:
+        raise ValueError(kind)
+    w.ext[c['rid']] = buf
+    return None
+
+
+@op('mkfromext')
+def _mkfromext(w, c):
+    """object from a user-held buffer: sa = [class, how]; how in auto|bytes_kw|bitarray_kw|bytes_off"""
+    cls = w.cls(c['sa'][0])
+    buf = w.ext[c['sa'][2]]
+    how = c['sa'][1]
+    if how == 'auto':
+        return cls(buf)
+    if how == 'bytes_kw':
+        return cls(bytes=buf)
+    if how == 'bytes_off':
+        return cls(bytes=buf, offset=0, length=len(buf) * 8)
+    if how == 'bitarray_kw':
+        return cls(bitarray=buf)
+    raise ValueError(how)
+
+
+@op('extmut')
+def _extmut(w, c):
+    """mutate a user-held buffer in place: ia[0] selects the mutation"""
+    import bitarray
+    buf = w.ext.get(c['sa'][0])
+    k = c['ia'][0]
+    if buf is None:
+        return None
+    if isinstance(buf, memoryview):
+        buf = w.ext[c['sa'][0] + '_base']
+    if isinstance(buf, bitarray.bitarray):
+        try:
+            if k % 3 == 0:
+                buf.invert()
+            elif k % 3 == 1:
+                buf.append(1)
+            else:
+                buf.clear()
+        except TypeError:
+            pass        # frozen
+    else:
+        if len(buf):
+            buf[k % len(buf)] ^= 0xff
+    return None
+
+
+@op('tobitarray')
+def _tobitarray(w, c):
+    r = T(w, c).tobitarray()
+    w.ext[c['rid']] = r
+    return Multi([[int(b) for b in r]], ['small'])
+
+
+@op('packobj')
+def _packobj(w, c):
+    """pack('bits, uint:8, bits', obj1, 5, obj2)-like: xs operands fill 'bits' tokens, ia fill uint:8 tokens"""
+    n = len(c['xs'])
+    fmt = ', '.join(['bits'] * n + ['uint:8'] * len(c['ia']))
+    return w.bs.pack(fmt, *[w.operand(x) for x in c['xs']], *c['ia'])
+
+
+@op('dtypebuild_bits')
+def _dtypebuild_bits(w, c):
+    return w.bs.Dtype('bits').build(w.operand(c['xs'][0]))
+
+
+@op('dtypeparse_bits')
+def _dtypeparse_bits(w, c):
+    return w.bs.Dtype('bits').parse(w.operand(c['xs'][0]))
